@@ -6,6 +6,7 @@
 #include <cstring>
 #include <cmath>
 #include <algorithm>
+#include <omp.h>
 #include "vf.hpp"
 
 void set_threads(int nt, int policy);
@@ -33,6 +34,22 @@ template <class M> inline void ser(Blob &b, const M &A) {
 }
 template <class V> inline void serd(Blob &b, const V &v) { size_t n = v.size(); b.puti(&n, sizeof n); if (n) b.putv(&v[0], n); }
 template <class V> inline void seri(Blob &b, const V &v) { size_t n = v.size(); b.puti(&n, sizeof n); if (n) b.puti(&v[0], n * sizeof(v[0])); }
+
+// The caller's own code may already be inside an active parallel region: with nesting disabled (libgomp's default, and what
+// engine/gomp_fiber models) every region the library opens then has a team of ONE while omp_get_max_threads() still answers nt.
+// f() is run by member 0 of an outer team of two.
+template <class F>
+Blob run_inside_region(F &&f) {
+    Blob out;
+#pragma omp parallel num_threads(2)
+    {
+        if (omp_get_thread_num() == 0) {
+            try { out = f(); } catch (const std::exception &e) { out.exc = std::string("EXC:") + e.what(); }
+        }
+    }
+    return out;
+}
+static const int NTS_INSIDE[] = {4, 8};      // at and above the 4-thread switch to the level-scheduled algorithms, below the 16-thread SpGEMM switch
 
 // Runs f() for every thread count / schedule.
 //  * nt <= 16 (marker SpGEMM, like nt = 1): byte-identical to nt = 1
@@ -86,6 +103,14 @@ void bitwise_phase(const std::string &phase, const std::string &key, bool uses_p
             if (!(got == refH)) { vf::fail("threads.bitwise." + phase, key, vf::KS() << "nt=" << nt << " schedule-policy=" << pol << " differs from nt=17 inside the >16-thread class"); done_hi = true; }
             else vf::S().traces_validated += 1;
         }
+    }
+    // called from inside an active region: same answer as with one thread (sub-check threads.inside_region.*)
+    for (int nt : NTS_INSIDE) {
+        set_threads(nt, 0);
+        Blob got = run_inside_region(f);
+        vf::count("runs_inside_region");
+        if (!(got == ref)) { vf::fail("threads.inside_region." + phase, key, vf::KS() << "max_threads=" << nt << ", called by a member of an outer parallel region (inner teams of one): output differs from nt=1 (" << (got.exc.empty() ? "values/structure" : got.exc) << ")"); break; }
+        else vf::S().traces_validated += 1;
     }
     set_threads(1, 0);
 }
